@@ -10,6 +10,7 @@ CONSTANTS
   FilterMT = TRUE
   Capped = TRUE
   CapIter = 2
+  CapRule = "passes"
 PROPERTY Terminates
 INVARIANT BeyondRankZero
 INVARIANT NprocInvisible
